@@ -893,7 +893,25 @@ class Rewriter:
         b = self.sub('R33:subslice', r'&self\.source\[([^\]\[]+?)\.\.\]', r'self.source.sub_from(\1)', b)
         b = self.sub('R33:subslice', r'&self\.source\[([^\]\[]+?)\.\.([^\]\[]+)\]', r'self.source.sub(\1, \2)', b)
         b = self.sub('R33:empty-slice', r'&\[\]', 'SrcM::empty()', b)
-        b = self.sub('R33:model-type', r'(?<![\w:])Utf8LossyChunk \{', 'ChunkM {', b)
+        b = self.sub('R33:model-type', r'(?<![\w:])(?:lossy::)?Utf8LossyChunk \{', 'ChunkM {', b)
+        b = self.sub('R33:model-type', r'(?<![\w:])Utf8LossyChunksIter \{', 'Utf8LossyChunksIter {', b)
+        b = self.sub('R33:model-type', r'(?<![\w:])Utf8Lossy \{', 'Utf8LossyM {', b)
+        b = self.sub('R33:model-type', r'\blossy::Utf8Lossy::from_bytes\(', 'Utf8LossyM::from_bytes(', b)
+        b = self.sub('R33:slice-ref', r'source: &self\.bytes,', 'source: self.bytes,', b)
+        if self.cfg.get('glue'):
+            # String::from_utf8_lossy_in: the String being built is abstract (its operations are verified in the strops unit)
+            b = self.sub('R33:string-model', r'\bString::from_utf8_unchecked\(Vec::from_iter_in\(v\.iter\(\)\.cloned\(\), bump\)\)', 'StrB::from_utf8_unchecked(bytes_from_iter(v, bump))', b)
+            b = self.sub('R33:string-model', r'\bString::from_str_in\(""', 'StrB::from_str_in(SrcM::empty()', b)
+            b = self.sub('R33:string-model', r'\bString::with_capacity_in\(', 'StrB::with_capacity_in(', b)
+            b = self.sub('R33:const-item', r'\bconst REPLACEMENT: &str = "\\u\{FFFD\}";', 'let REPLACEMENT = replacement_str();', b)
+            # `for PAT in iter { .. }` over the chunk iterator: next() until None
+            fm = re.search(r'\bfor (ChunkM \{[^}]*\}) in iter\s*\{', b)
+            if fm:
+                o = fm.end() - 1
+                cpos = match_close(mask(b), o)
+                body = b[o + 1:cpos]
+                b = (b[:fm.start()] + 'loop {\n            match iter.next() {\n                Some(%s) => {%s}\n                None => { break; }\n            }\n        }' % (fm.group(1), body) + b[cpos + 1:])
+                self.fired('R23:for-over-iterator')
         return b
 
     # R20: RawVec growth -- the arena seen through its Alloc interface as a ghost "buffer owned" state -----------------
